@@ -1,7 +1,8 @@
 #!/usr/bin/env python3
 """C19: operator resolution.  spec/Resolution.tla holds both levels: level A = the property (first-order matching with one
 type per variable, output = substitution, no match -> resolution error, shared best rank -> ambiguity error, else the unique
-minimum-rank candidate; ranks are whatever the tree reports), level B = the implementation-shaped model (sequential matcher,
+minimum-rank candidate; ranks are whatever the tree reports; and, independent of any rank formula, the selected candidate is
+never strictly more general - by pattern subsumption - than another matching candidate), level B = the implementation-shaped model (sequential matcher,
 documented rank formula, stable sort + tie test).  MCResolution.tla enumerates families x argument tuples x registration
 orders, checks B against A's clauses and order independence exhaustively, and prints every scenario with B's predictions.
 Each scenario is replayed (all registration orders) into build/hgv_resolve, which registers run-time constructed overloads
